@@ -117,7 +117,8 @@ PROPS = {
     "C14": {
         "proof_files": ["Proofs/ClientFacts.v", "Proofs/ClientMore.v"],
         "runs": [{"engine": "clientinfo", "args": ["-mode", "probe"], "n_quick": 1500, "n_thorough": 150000},
-                 {"engine": "clientinfo", "args": ["-mode", "headers"], "n_quick": 150, "n_thorough": 6000, "netns": True}],
+                 {"engine": "clientinfo", "args": ["-mode", "headers"], "n_quick": 150, "n_thorough": 6000, "netns": True},
+                 {"engine": "clientinfo", "args": ["-mode", "names"], "n_quick": 1200, "n_thorough": 60000, "netns": True}],
         "trivial_tags": [r"^off$"],
         "rule": "probe: the daemon binary built from /repo (package main, add-only probe file) computes shortID for random profile ids x device "
                 "byte strings (MAC, IPv4, IPv6, empty, long) and the ClientInfo closure installed by setupClientReporting for LAN clients "
